@@ -200,9 +200,10 @@ Print Assumptions C12_default_literal_plain.
    of C01 / C03), put in front of the definition's tokens (add_description).
    [desc_schema] (Proofs/SdlTextDescProofs.v): descriptions on types and
    directive definitions that satisfy [desc_ok] -- printed by the options, no
-   double quote, not ending with a backslash (open finding
-   description-trailing-backslash), source characters, read back by
-   BlockStringValue; members carry no descriptions. *)
+   double quote, source characters, read back by BlockStringValue (a one-line
+   description ending with a backslash is laid out in the multi-line form
+   since /repo 6320d32, fixes/C12-07: ends_with_qb in the model); members
+   carry no descriptions. *)
 Theorem C12_text_parse_partial : forall intro spec o fl sc text,
   full_schema o sc -> valid_locations sc -> po_introspection o = false ->
   no_location fl = true -> allow_type_system fl = true -> all_ws (po_indent o) ->
@@ -212,10 +213,14 @@ Proof. exact text_parses_full. Qed.
 Print Assumptions C12_text_parse_partial.
 
 (* [full_schema] (Proofs/SdlMemberDescProofs.v) extends [desc_schema] with
-   descriptions on fields, enum values and input fields (depth 1: the
-   description block is indented, a blank line separates described members);
-   arguments (of fields and of directive definitions) carry none *)
-Theorem C12_desc_schema_is_full_schema : forall o sc, desc_schema o sc -> full_schema o sc.
+   descriptions on fields, enum values, input fields (depth 1: the
+   description block is indented, a blank line separates described members)
+   and arguments: of fields (depth 2) and of directive definitions (depth 1),
+   in the one-argument-per-line layout the printer switches to as soon as one
+   argument is described.  [full_schema] also carries the validity of the
+   locations of directive definitions. *)
+Theorem C12_desc_schema_is_full_schema : forall o sc,
+  desc_schema o sc -> valid_locations sc -> full_schema o sc.
 Proof. exact desc_schema_full. Qed.
 Print Assumptions C12_desc_schema_is_full_schema.
 
